@@ -37,7 +37,8 @@ def evaluate(sd, pid):
     }
     json.dump(meta, open(os.path.join(sd, 'meta.json'), 'w'), indent=1)
     print(os.path.basename(sd), 'confirmed' if res.get('confirmed') else 'NOT CONFIRMED ' + str(res.get('apply_failed', ''))[:80],
-          'DETECTED' if detected else 'MISSED', (det.get('lines') or [''])[0][-40:], flush=True)
+          'DETECTED' if detected else 'MISSED',
+          ([l for l in (det.get('lines') or []) if l.startswith('VIOLATION')] or det.get('lines') or [''])[0][-40:], flush=True)
 
 
 if len(sys.argv) > 1 and sys.argv[1] == 'import':
